@@ -117,7 +117,8 @@ def run(ctx):
     gh = fb.fn(TC + "GetPackageFromTecmpHeader")
     for row in spec["tecmp_header"]:
         cs = list(gh.calls(row["setter"]))
-        ok = len(cs) == 1 and {c for c in depends(gh, cs[0]["args"][0])[1] if c.startswith(TH + "::get")} == {row["source"]}
+        ok = len(cs) == 1 and {c for c in depends(gh, cs[0]["args"][0])[1] if c.startswith(TH + "::get")} == {row["source"]} and \
+            facts.flows_unchanged(gh, cs[0]["args"][0], row["source"])
         res.check(ok, "C15-R3", "header:%s" % row["setter"].split("::")[-1], cs[0].get("loc") if cs else gh.loc, "%s <- %s" % (row["setter"].split("::")[-1], row["source"]),
                   "%s is not fed from exactly %s" % (row["setter"], row["source"]))
     for fname, rows in spec["tecmp_payload"].items():
@@ -130,7 +131,7 @@ def run(ctx):
             for c in cs:
                 _, calls = depends(f, c["args"][arg])
                 got = {x for x in calls if x.startswith("TECMP::") and "::get" in x and not x.endswith("::get")}
-                if got == {row["source"]}:
+                if got == {row["source"]} and facts.flows_unchanged(f, c["args"][arg], row["source"]):
                     ok = True
             res.check(ok, "C15-R3", "%s:%s[%d]" % (fname.split("::")[-1], row["setter"].split("::")[-1], arg), cs[0].get("loc") if cs else f.loc,
                       "%s arg %d <- %s" % (row["setter"].split("::")[-1], arg, row["source"].split("::")[-1]),
